@@ -4,6 +4,7 @@
 -/
 import PgProofs.SymFrame2
 import PgProps.C01
+import PgProofs.CloneVal
 namespace Pg.Sym
 
 /-- **The clone is a well-formed tree of its own**: root without parent, empty path, and every
@@ -258,3 +259,48 @@ example : (stepA Cfg.patched sample true (.clone 0 true)).forest.wf = true := by
 example : Quiet (.lReverse 1) = true := by decide
 
 end Pg.Sym
+
+/-! ### Symbolic containers inside tuples / plain lists / plain dicts (the `pg.clone` dispatcher) -/
+namespace Pg.C07.Val
+
+/-- A deep clone shares NO mutable object with the original — symbolic container, plain list, plain
+dict or opaque leaf, at any tuple depth: for every value whose identities are below the allocation
+counter. -/
+theorem C07_val_independent (next : Nat) (v : V) (h : ∀ i ∈ ids v, i < next) :
+    ∀ i ∈ ids (cloneV true next v).1, i ∉ ids v := by
+  intro i hi hv
+  have h1 := ((cloneV_deep next v).2.1 i hi).1
+  have h2 := h i hv
+  omega
+
+theorem C07_val_shared_nil (next : Nat) (v : V) (h : ∀ i ∈ ids v, i < next) :
+    shared (cloneV true next v).1 v = [] := by
+  unfold shared
+  rw [List.filter_eq_nil_iff]
+  intro i hi
+  have := C07_val_independent next v h i hi
+  simpa using this
+
+/-- The deep clone is a tree of its own: its mutable objects are pairwise different and all fresh. -/
+theorem C07_val_own_tree (next : Nat) (v : V) :
+    (ids (cloneV true next v).1).Nodup ∧ ∀ i ∈ ids (cloneV true next v).1, next ≤ i ∧ i < (cloneV true next v).2 :=
+  ⟨(cloneV_deep next v).2.2, (cloneV_deep next v).2.1⟩
+
+/-- Deep or shallow, the clone has the shape (classes, structure, immutable leaves) of the original. -/
+theorem C07_val_equal (deep : Bool) (next : Nat) (v : V) : shape (cloneV deep next v).1 = shape v :=
+  cloneV_shape deep next v
+
+/-- Documented, deliberate: a SHALLOW clone shares whatever sits inside a tuple (kernel-evaluated). -/
+theorem C07_val_shallow_shares :
+    shared (cloneV false 3 (.sym 0 [.tup [.sym 1 [.imm 5], .opq 2]])).1 (.sym 0 [.tup [.sym 1 [.imm 5], .opq 2]]) = [1, 2] := by
+  decide
+
+/-- The change seeded as C07-16 (a tuple whose direct elements are all "immutable", tuples included, is
+returned as is) in the model: the inner symbolic node is shared by the deep clone (kernel-evaluated) —
+what the theorem above excludes for the code as it is. -/
+example : ∃ i, i ∈ ids (V.sym 7 [.tup [.tup [.sym 1 [.imm 5]]]]) ∧ i ∈ ids (V.sym 0 [.tup [.tup [.sym 1 [.imm 5]]]]) :=
+  ⟨1, by decide, by decide⟩
+
+example : ∀ i ∈ ids (V.sym 0 [.tup [.tup [.sym 1 [.imm 5]], .plist 2 [.opq 3]]]), i < 4 := by decide
+
+end Pg.C07.Val
